@@ -378,10 +378,15 @@ CHAIN_SCENARIOS = [
 ]
 
 
-def _check_chain(sc, fmt, mode, via, tmp):
+def _check_chain(sc, fmt, mode, via, tmp, schema_factory=None, scope=None, obligation=None, witness=None):
+    """schema_factory(startdir) / scope: the schema and its scope structure (default: _schema / SCOPE_TREE)"""
     import cincoconfig as cc
     fails = []
-    base = os.path.join(tmp, "chain-%s-%s-%s-%s" % (sc["name"], fmt, mode, via))
+    schema_factory = schema_factory or _schema
+    scope = scope or SCOPE_TREE
+    obligation = obligation or "core:Config._process_includes/post:C18.nested-include-contributed-by-included-file"
+    witness = witness or ("chain:" + sc["name"])
+    base = os.path.join(tmp, "chain-%s-%s-%s-%s" % (sc["name"].replace("/", "_").replace("@", "_"), fmt, mode, via))
     incdir = os.path.join(base, "inc")
     os.makedirs(incdir, exist_ok=True)
 
@@ -402,7 +407,7 @@ def _check_chain(sc, fmt, mode, via, tmp):
             fp.write(_dump(fmt, tree))
     main = subst(sc["main"])
     doc = _dump(fmt, main)
-    cfg = _schema(incdir)()
+    cfg = schema_factory(incdir)()
     try:
         if via == "loads":
             cfg.loads(doc, fmt)
@@ -412,23 +417,145 @@ def _check_chain(sc, fmt, mode, via, tmp):
                 fp.write(doc)
             cfg.load(mainfile, fmt)
     except Exception as exc:
-        return [("core:Config._process_includes/post:C18.nested-include-contributed-by-included-file",
+        return [(obligation,
                  "scenario %s (%s, %s path, %s): load raised %s: %s" % (sc["name"], fmt, mode, via, type(exc).__name__, exc),
-                 "chain:raises:%s" % sc["name"])]
-    want_tree = _resolve(SCOPE_TREE, main, lambda spelling: by_spelling[spelling])
-    ref = _schema(incdir)()
+                 witness + ":raises")]
+    want_tree = _resolve(scope, main, lambda spelling: by_spelling[spelling])
+    ref = schema_factory(incdir)()
     ref.load_tree(copy.deepcopy(want_tree))
     got, got_marks = _observable(cfg)
     want, want_marks = _observable(ref)
     if not _same_tree(got, want) or got_marks != want_marks:
         fg, fw = _flat(got), _flat(want)
         diff = sorted(k for k in set(fg) | set(fw) if not strict_eq(fg.get(k, "<absent>"), fw.get(k, "<absent>")))
-        fails.append(("core:Config._process_includes/post:C18.nested-include-contributed-by-included-file",
+        fails.append((obligation,
                       "scenario %s (%s, %s path, %s): differs from load_tree(fully merged tree) at %r: loaded %r, merged %r; "
                       "user-defined %r vs %r" % (sc["name"], fmt, mode, via, diff, {k: fg.get(k, "<absent>") for k in diff},
                                                  {k: fw.get(k, "<absent>") for k in diff}, got_marks, want_marks),
-                      "chain:" + sc["name"]))
+                      witness))
     return fails
+
+
+# ------------------------------------------------------------------------------------------------ declaration order
+# shape: declaration order of the root scope's include fields (i1, i2, i3) and of the nested schema `sub`; declaration
+# order inside `sub` of its include field `inc` and (depth 3) of the nested schema `deep`
+ORDER_SHAPES = {}
+for _name, _root in (("sub-before-2", ["sub", "i1", "i2"]), ("sub-after-2", ["i1", "i2", "sub"]),
+                     ("sub-between-2", ["i1", "sub", "i2"]), ("sub-first-3", ["sub", "i1", "i2", "i3"]),
+                     ("sub-second-3", ["i1", "sub", "i2", "i3"]), ("sub-third-3", ["i1", "i2", "sub", "i3"]),
+                     ("sub-last-3", ["i1", "i2", "i3", "sub"])):
+    ORDER_SHAPES[_name] = {"root": _root, "sub": ["inc"]}
+for _name, _root in (("sub-before-2", ["sub", "i1", "i2"]), ("sub-after-2", ["i1", "i2", "sub"]),
+                     ("sub-between-2", ["i1", "sub", "i2"])):
+    ORDER_SHAPES[_name + "+deep-before-inc"] = {"root": _root, "sub": ["deep", "inc"]}
+    ORDER_SHAPES[_name + "+deep-after-inc"] = {"root": _root, "sub": ["inc", "deep"]}
+
+
+def _order_schema(shape, startdir):
+    import cincoconfig as cc
+    s = cc.Schema()
+    s.x = cc.IntField(default=0)
+    s.y = cc.StringField(default="dy")
+    s.free = cc.DictField(default=dict)
+    for tok in shape["root"]:
+        if tok != "sub":
+            setattr(s, tok, cc.IncludeField(startdir=startdir))
+            continue
+        sub = cc.Schema()
+        s.sub = sub
+        sub.p = cc.IntField(default=0)
+        sub.q = cc.StringField(default="dq")
+        sub.free = cc.DictField(default=dict)
+        for tok2 in shape["sub"]:
+            if tok2 == "inc":
+                sub.inc = cc.IncludeField(startdir=startdir)
+            else:
+                deep = cc.Schema()
+                sub.deep = deep
+                deep.r = cc.IntField(default=0)
+                deep.inc = cc.IncludeField(startdir=startdir)
+                deep.s = cc.StringField(default="ds")
+    s.z = cc.StringField(default="dz")
+    return s
+
+
+def _order_scope(shape):
+    """scope structure for the reference: includes of a scope in declaration order; nested scopes (their position among
+    the include fields plays no role in the rule)"""
+    subs = {}
+    if "deep" in shape["sub"]:
+        subs["deep"] = {"includes": ["inc"], "subs": {}}
+    return {"includes": [t for t in shape["root"] if t != "sub"],
+            "subs": {"sub": {"includes": ["inc"], "subs": subs}}}
+
+
+def _order_cases(shape):
+    """-> [(case name, main, files)] for a shape; every include field of the root scope is given a file; the `carrier`
+    is the root include whose file does the interesting thing, the others get filler files"""
+    incs = [t for t in shape["root"] if t != "sub"]
+    deep = "deep" in shape["sub"]
+    out = []
+
+    def fillers(carrier, main, files):
+        for t in incs:
+            if t != carrier:
+                main[t] = "@fill_" + t
+                files["fill_" + t] = {"free": {t: 1, "m": {t: [1]}}}
+        return main, files
+
+    for carrier in incs:
+        # (a) the outer-included file itself names the nested scope's include file
+        main, files = fillers(carrier, {carrier: "@a", "x": 1}, {
+            "a": {"y": "a", "sub": {"inc": "@s", "p": 1, "q": "a"}}, "s": {"p": 2, "free": {"k": "s"}}})
+        out.append(("outer-file-names-nested-include@" + carrier, main, files))
+        # (b) outer-included file and nested-included file set the same keys of the nested scope
+        main, files = fillers(carrier, {carrier: "@a", "sub": {"inc": "@s", "p": 0, "free": {"main": 1}}}, {
+            "a": {"sub": {"p": 1, "q": "a", "free": {"k": "a", "m": {"a": 1, "both": "a"}}}},
+            "s": {"p": 2, "free": {"k": "s", "m": {"b": 2, "both": "s"}}}})
+        out.append(("outer-and-nested-file-set-same-keys@" + carrier, main, files))
+        # (c) the outer-included file points the nested include at another file than the main document does
+        main, files = fillers(carrier, {carrier: "@a", "sub": {"inc": "@s1", "p": 0}}, {
+            "a": {"sub": {"inc": "@s2"}}, "s1": {"p": 1, "q": "s1", "free": {"s1": 1}},
+            "s2": {"p": 2, "q": "s2", "free": {"s2": 1}}})
+        out.append(("outer-file-redirects-nested-include@" + carrier, main, files))
+        if deep:
+            main, files = fillers(carrier, {carrier: "@a", "sub": {"inc": "@s"}}, {
+                "a": {"sub": {"deep": {"inc": "@d", "r": 1, "s": "a"}}}, "s": {"p": 5, "deep": {"r": 5}},
+                "d": {"r": 9}})
+            out.append(("outer-file-names-depth3-include@" + carrier, main, files))
+            main, files = fillers(carrier, {carrier: "@a", "sub": {"deep": {"inc": "@d1", "r": 0}}}, {
+                "a": {"sub": {"inc": "@s", "deep": {"s": "a"}}}, "s": {"deep": {"inc": "@d2", "r": 1}},
+                "d1": {"r": 7, "s": "d1"}, "d2": {"r": 8}})
+            out.append(("outer-names-nested-which-redirects-depth3-include@" + carrier, main, files))
+    # every include of the scope is applied, later ones on top of earlier ones
+    main = {"x": 0, "y": "main", "free": {"main": 1}}
+    files = {}
+    for n, t in enumerate(incs):
+        main[t] = "@f_" + t
+        files["f_" + t] = {"x": n + 1, "free": {"last": t, t: n, "m": {t: n, "last": t}}}
+    files["f_" + incs[0]]["y"] = "first"
+    out.append(("all-includes-applied-in-order", main, files))
+    # two root includes both contribute to the nested scope (and point its include at different files): the later wins
+    main = {"sub": {"p": 0}}
+    files = {"s_first": {"q": "s_first"}, "s_last": {"q": "s_last", "p": 9}}
+    for n, t in enumerate(incs):
+        main[t] = "@g_" + t
+        files["g_" + t] = {"sub": {"free": {"by": t, t: n}}}
+    files["g_" + incs[0]]["sub"]["inc"] = "@s_first"
+    files["g_" + incs[-1]]["sub"]["inc"] = "@s_last"
+    out.append(("first-and-last-include-point-nested-include-at-different-files", main, files))
+    return out
+
+
+def _check_order(shape_name, case_name, fmt, mode, via, tmp):
+    shape = ORDER_SHAPES[shape_name]
+    found = [c for c in _order_cases(shape) if c[0] == case_name]
+    name, main, files = found[0]
+    sc = {"name": "order-%s-%s" % (shape_name, case_name), "main": main, "files": files}
+    return _check_chain(sc, fmt, mode, via, tmp, schema_factory=lambda d: _order_schema(shape, d),
+                        scope=_order_scope(shape),
+                        obligation="core:Config._process_includes/post:C18.scope-includes-merged-before-nested-scopes",
+                        witness="include-order:%s/%s" % (shape_name, case_name))
 
 
 # ------------------------------------------------------------------------------------------------ repeated loads
@@ -537,6 +664,8 @@ RELOAD_KINDS = ("fresh-config-same-schema", "fresh-config-new-schema", "load-twi
 
 
 def _run(case, tmp):
+    if case["check"] == "include-order":
+        return _check_order(case["shape"], case["case"], case["format"], case["mode"], case["via"], tmp)
     if case["check"] == "chain-across-scopes":
         sc = [x for x in CHAIN_SCENARIOS if x["name"] == case["scenario"]][0]
         return _check_chain(sc, case["format"], case["mode"], case["via"], tmp)
@@ -585,7 +714,10 @@ def rac(tier="quick", seed=0):
              "tree (values and user-defined marks); (d) (path kind, format) -> startdir resolution / failing load; (f) (chain scenario, format, path mode, entry point) -> the including document "
              "names an include only at an enclosing scope and the INCLUDED file contributes a nested sub-configuration that "
              "names its own include: load == load_tree(tree resolved scope by scope: merge the scope's includes, then "
-             "descend into every sub-schema key of the merged tree); (e) (reload kind, "
+             "descend into every sub-schema key of the merged tree); (g) (declaration-order shape, case, format, path mode, entry point) -> schema whose "
+             "nested schema is declared before / between / after the 2 or 3 include fields of its scope (depth 2 and 3); the "
+             "file included by the carrier include names the nested include / sets keys the nested-included file also sets / "
+             "points the nested include elsewhere; oracle = independent scope-by-scope reference (_resolve); (e) (reload kind, "
              "format, path mode, entry point) -> load with root + nested includes into A, change A's mutable values in "
              "place (untyped list/dict values and their nested items), load the unchanged files into a fresh B (same or "
              "new schema): B == load_tree(merged); same configuration loaded twice (with/without changes in between) == "
@@ -595,7 +727,9 @@ def rac(tier="quick", seed=0):
               "10 leaf values incl. lists/None/empty; (c) 13 scenarios (root, nested, depth-3, two includes in one scope, "
               "all scopes at once) x 5 formats x 4 path modes x 2 entry points; (d) 6 path kinds x 5 formats; (f) 9 chain scenarios (root file names a sub / depth-3 include, second of two root "
               "includes names it, sub file names a deeper or a second sub include, three scopes in a row) x 5 formats x 2 "
-              "path modes x 2 entry points; (e) 4 reload kinds x 5 formats x 2 path modes x 2 entry "
+              "path modes x 2 entry points; (g) 13 shapes (7 of depth 2 with 2-3 root includes, 6 of depth 3) x (3-5 cases per "
+              "carrier include + 2 order cases) x 5 formats x {relative loads, absolute loads, relative load}; "
+              "(e) 4 reload kinds x 5 formats x 2 path modes x 2 entry "
               "points, 14 in-place changes at depth <= 3",
         tier=tier, seed=seed)
     with sandbox() as tmp:
@@ -628,6 +762,20 @@ def rac(tier="quick", seed=0):
                         fails = _run(case, tmp)
                         rec.case(key=("chain", sc["name"], fmt, mode, via), nontrivial=True,
                                  sample=case if (sc["name"], fmt, mode, via) == ("three-scopes-in-a-row", "xml", "relative", "load") else None)
+                        for obligation, what, wk in fails:
+                            rec.violation(obligation=obligation, what=what, replay=dict(case, obligation=obligation),
+                                          witness_key=wk)
+        for shape_name, shape in ORDER_SHAPES.items():
+            for case_name, _main, _files in _order_cases(shape):
+                for fmt in FORMATS:
+                    for mode, via in (("relative", "loads"), ("absolute", "loads"), ("relative", "load")):
+                        case = {"check": "include-order", "shape": shape_name, "case": case_name, "format": fmt,
+                                "mode": mode, "via": via}
+                        fails = _run(case, tmp)
+                        rec.case(key=("include-order", shape_name, case_name, fmt, mode, via), nontrivial=True,
+                                 sample=case if (shape_name, fmt, mode) == ("sub-between-2", "yaml", "relative")
+                                 and case_name.startswith("outer-file-redirects") and case_name.endswith("i2")
+                                 and via == "loads" else None)
                         for obligation, what, wk in fails:
                             rec.violation(obligation=obligation, what=what, replay=dict(case, obligation=obligation),
                                           witness_key=wk)
